@@ -73,6 +73,8 @@ def readout(kind, ins):
     else:
         out["filters"] = _safe(lambda: [_filt(f) for f in ins.filters])
         out["min_bins_per_window"] = _safe(lambda: ins.min_bins_per_window)
+    if kind != "polychromator":
+        out["calibrate"] = _safe(lambda: _calibrate(ins))
     if kind == "czerny":
         for a in ("diffraction_order", "grating", "focal_length", "pixel_spacing", "diffraction_angle"):
             out[a] = _safe(lambda a=a: float(getattr(ins, a)))
@@ -83,7 +85,20 @@ def readout(kind, ins):
     return out
 
 
+def _calibrate(ins):
+    """calibrate a fixed smooth spectrum spanning the instrument's range onto its pixels"""
+    import numpy as np
+    from raysect.optical import Spectrum
+    lo, hi = float(ins.min_wavelength), float(ins.max_wavelength)
+    sp = Spectrum(lo - 1.0, hi + 1.0, 400)
+    w = np.asarray(sp.wavelengths)
+    sp.samples[:] = 1.0 + 0.01 * (w - lo) + 0.3 * np.sin(0.5 * (w - lo))
+    return [np.asarray(a, float).tolist() for a in ins.calibrate(sp)]
+
+
 def _get(ins, g):
+    if g == "calibrate":
+        return _calibrate(ins)
     if g == "spectral":
         return ins.min_wavelength, ins.max_wavelength, ins.spectral_bins
     if g == "classes":
@@ -202,7 +217,7 @@ SPEC_MUTANTS = {
                      ("getter-fills-from-initial-parameters", 'cache[c] = <<>> THEN <<Proj(c, par)>> ELSE cache[c]]', 'cache[c] = <<>> THEN <<Proj(c, hist[1].par)>> ELSE cache[c]]')],
     "czerny": [("optics-do-not-rebuild-w2p", '"acc"} -> {"w2p", "spectral"}', '"acc"} -> {"spectral"}'),
                ("optics-do-not-clear-spectral", '"acc"} -> {"w2p", "spectral"}', '"acc"} -> {"w2p"}'),
-               ("invalid-value-accepted", "    /\\ outcome' = \"ValueError\"\n    /\\ UNCHANGED <<par, cache>>", "    /\\ outcome' = \"ValueError\"\n    /\\ par' = [par EXCEPT ![p] = v] /\\ UNCHANGED cache")],
+               ("invalid-value-accepted", "    /\\ outcome' = \"ValueError\"\n    /\\ UNCHANGED <<par, cache, used>>", "    /\\ outcome' = \"ValueError\"\n    /\\ par' = [par EXCEPT ![p] = v] /\\ UNCHANGED <<cache, used>>")],
     "polychromator": [("filters-do-not-clear-classes", 'p = "filters" -> {"spectral", "classes", "kwargs"}', 'p = "filters" -> {"spectral", "kwargs"}'),
                       ("filters-do-not-clear-kwargs", 'p = "filters" -> {"spectral", "classes", "kwargs"}', 'p = "filters" -> {"spectral", "classes"}'),
                       ("mbw-does-not-clear-spectral", '[] p = "mbw" -> {"spectral"}', '[] p = "mbw" -> {}')],
